@@ -348,9 +348,15 @@ def closed_state(chk, tu, rule='R13.2'):
             if is_sym(v):
                 for c, t, _ in p.decisions:
                     c0 = pe.norm_cond(c)
-                    if c0.op in ('!=', '==') and pe.strip_casts(c0.args[0]) == v and c0.args[1] == 0:
+                    if is_sym(c0) and c0.op in ('!=', '==') and pe.strip_casts(c0.args[0]) == v and c0.args[1] == 0:
                         if (c0.op == '!=' and not t) or (c0.op == '==' and t):
                             rec[k] = 0
+                    # the same test written as a truth value: `if (x)` not taken, `if (!x)` taken
+                    neg, c1 = False, c0
+                    while is_sym(c1) and c1.op == '!':
+                        neg, c1 = not neg, c1.args[0]
+                    if is_sym(c1) and pe.strip_casts(c1) == v and ((not neg and not t) or (neg and t)):
+                        rec[k] = 0
         closed.append(rec)
     chk.require(n_ok >= 2, 'wasiFileDescriptorClose has %d success paths' % n_ok)
     # double close at the level of the helper: closing CLOSED again must fail without native calls
